@@ -6,6 +6,7 @@
 -/
 import Ladybug.DrvCore
 import Ladybug.Model.Psychro
+import Ladybug.Model.PsychroObj
 
 open Drv Psychro
 
@@ -30,8 +31,44 @@ def chart? (useIp : String) (fs : List Float) : Option (Chart Float × List Floa
   | some ip, bx :: by' :: xd :: yd :: mt :: p :: rest => some (⟨bx, by', xd, yd, mt, p, ip⟩, rest)
   | _, _ => none
 
+/-- optional float argument of a setter: `?` = something the setter's assert rejects -/
+def optFloat? (s : String) : Option (Option Float) :=
+  if s = "?" then some none else (floatBits? s).map some
+
+/-- one token of a `ddhist` history: `T:<type|?>  V:<hex|?>  P:<hex|?>  M:<hex|?>  R:<hex|?>`
+    (setters of type, value, pressure, dry-bulb max, dry-bulb range) and the reads
+    `d` (day dew point)  `a:<hex>` (dew point at a dry bulb)  `b` (hourly dry bulb)  `h` (hourly dew point)
+    `r` (hourly relative humidity)  `p` (hourly pressure). -/
+def ddOp? (tok : String) : Option (DDOp Float) :=
+  match tok.splitOn ":" with
+  | ["T", "?"] => some (.setType none)
+  | ["T", t] => (humType? t).map fun x => .setType (some x)
+  | ["V", v] => (optFloat? v).map .setValue
+  | ["P", v] => (optFloat? v).map .setPressure
+  | ["M", v] => (optFloat? v).map .setDbMax
+  | ["R", v] => (optFloat? v).map .setDbRange
+  | ["d"] => some (.read .dayDew)
+  | ["a", v] => (floatBits? v).map fun x => .read (.dewAt x)
+  | ["b"] => some (.read .hourlyDb)
+  | ["h"] => some (.read .hourlyDew)
+  | ["r"] => some (.read .hourlyRh)
+  | ["p"] => some (.read .hourlyPressure)
+  | _ => none
+
+def showOut : DDOut Float → String
+  | .done => "set"
+  | .refused => "refused"
+  | .vals l => if l.all Float.isFinite then joinSp ("v" :: l.map showFloatBits) else "nonfinite"
+
 def handle (toks : List String) : String :=
   match toks with
+  | "ddhist" :: ty :: value :: p :: dbMax :: dbRange :: ops =>
+    -- ddhist <type> <value> <pressure> <db_max> <db_range> <op>...  ->  the answers, separated by ` | `
+    match humType? ty, floats [value, p, dbMax, dbRange], ops.mapM ddOp? with
+    | some ty, some [value, p, dbMax, dbRange], some ops =>
+      let o : DDObj Float := ⟨ty, value, p, dbMax, dbRange⟩
+      "ok " ++ " | ".intercalate ((o.run ops).2.map showOut)
+    | _, _, _ => "bad-op"
   | "dd_hourly" :: ty :: rest =>
     -- dd_hourly <type> <value> <pressure> <db_max> <hourly db ...>  ->  max dew point, 24 dew points, 24 rh
     match humType? ty, floats rest with
